@@ -210,3 +210,32 @@ def i_jsge(i, fmap):
     dst, src, off = i.operands
     npc = fmap(pc) + (off * 8)
     fmap[pc] = tst(fmap(dst >= src), npc, fmap(pc))
+
+
+# classic BPF jumps (see cpu_bpf): operands are [K or X, jt, jf]. The accumulator
+# A is tested against the first operand (unsigned) and pc moves forward by jt
+# instructions if the test holds, by jf instructions otherwise.
+# ------------------------------------------------------------------------------
+
+
+def __bpf_jcc(cond):
+    @__npc
+    def jcc(i, fmap):
+        src, jt, jf = i.operands
+        _pc = fmap(pc)
+        fmap[pc] = tst(fmap(cond(A, src)), _pc + (jt * 8), _pc + (jf * 8))
+
+    return jcc
+
+
+bpf_jeq = __bpf_jcc(lambda a, x: a == x)
+bpf_jgt = __bpf_jcc(lambda a, x: oper(OP_LTU, x, a))
+bpf_jge = __bpf_jcc(lambda a, x: oper(OP_GEU, a, x))
+bpf_jset = __bpf_jcc(lambda a, x: (a & x) != 0)
+
+
+@__npc
+def bpf_ja(i, fmap):
+    # unconditional: pc += K
+    k = i.operands[0]
+    fmap[pc] = fmap(pc) + (k.zeroextend(pc.size) * 8)
